@@ -28,13 +28,18 @@ func (c *vcountConn) Read(b []byte) (int, error) {
 	return n, err
 }
 
-// vbeh: what a scripted handler does with the frame: read up to k payload bytes, then return or panic.
+// vbeh: what a scripted handler does with the frame: read up to k payload bytes, then return or panic; or obtain the
+// payload the way the device service's handlers do: mode 'd' = msg.data(), mode 'u' = msg.UnmarshalTo(<message struct>).
 type vbeh struct {
 	k     int
 	panic bool
+	mode  byte
 }
 
 func (b vbeh) String() string {
+	if b.mode != 0 {
+		return string(b.mode)
+	}
 	if b.panic {
 		return fmt.Sprintf("p%d", b.k)
 	}
@@ -100,6 +105,33 @@ func (h *vrdHandler) HandleMessage(c *Client, msg Message) {
 	b := l.behs[idx]
 	l.mu.Unlock()
 	took, hash := 0, uint32(fnvOff)
+	if b.mode != 0 {
+		var data []byte
+		ok := false
+		if b.mode == 'd' {
+			d, err := msg.data()
+			data, ok = d, err == nil
+		} else {
+			var v interface{ UnmarshalBinary([]byte) error } = &ROAccessReport{}
+			if msg.typ.IsValid() {
+				if inst := msg.typ.NewInstance(); inst != nil {
+					v = inst
+				}
+			}
+			_ = msg.UnmarshalTo(v) // a decode error is not data()'s: data() succeeded iff the payload is now a buffer
+			if bp, isBuf := msg.payload.(byteProvider); isBuf && msg.payloadLen <= MaxBufferedPayloadSz {
+				data, ok = bp.Bytes(), true
+			}
+		}
+		flag := 2
+		if ok {
+			took, hash, flag = len(data), vfnv(fnvOff, data), 0
+		}
+		l.mu.Lock()
+		l.deliv = append(l.deliv, fmt.Sprintf("%d:%s:%d:%d:%d", idx-l.shift, h.party, took, hash, flag))
+		l.mu.Unlock()
+		return
+	}
 	if msg.payload != nil {
 		buf := make([]byte, 32768)
 		for took < b.k {
